@@ -33,7 +33,7 @@ CONSTANTS
 VARIABLES st, h, track, clk, last, hist, n, prep
 vars == <<st, h, track, clk, last, hist, n, prep>>
 view == <<st, h, track, clk, last, n, prep>>
-NoPrep == [alloc |-> <<>>, measure |-> "none", thr |-> Zero, fractional |-> TRUE]
+NoPrep == [alloc |-> <<>>, measure |-> "none", thr |-> Zero, fractional |-> TRUE, absolute |-> TRUE]
 
 NoOp == [op |-> "init", c |-> "-", x |-> "-", y |-> "-", out |-> "ok", nlv |-> NaN]
 
@@ -133,7 +133,7 @@ DoRebalance(req, dt, tag, prepared) ==
 Lots(tgt, dt) ==
     /\ "lots" \in Ops
     /\ DoRebalance([alloc |-> [c \in DOMAIN tgt |-> RM(tgt[c])], measure |-> "lots",
-                    thr |-> Zero, fractional |-> TRUE], dt, "rebalance", FALSE)
+                    thr |-> Zero, fractional |-> TRUE, absolute |-> TRUE], dt, "rebalance", FALSE)
 
 Rebal(req, dt) ==
     /\ "rebal" \in Ops
@@ -264,7 +264,8 @@ RebalanceNeedsQuotes ==
 \* C03  rebalancing reaches the target (no threshold); evaluated on the state after the rebalance
 
 TargetReached ==
-    (last.op = "rebalance" /\ last.out \in {"ok", "broke"} /\ last.pre # NaN /\ IsZero(last.x.thr) /\ last.x.fractional) =>
+    (last.op = "rebalance" /\ last.out \in {"ok", "broke"} /\ last.pre # NaN /\ IsZero(last.x.thr) /\ last.x.fractional
+        /\ last.x.absolute) =>
         \A c \in C :
             IF Targeted(last.x, c)
             THEN IF last.x.measure = "lots" THEN st.pos[c] = last.x.alloc[c]
@@ -280,13 +281,13 @@ FrictionlessNlv ==
 \* immediately repeating the same request in a frictionless market trades nothing
 SecondRebalanceIdle ==
     [][ (last.op = "rebalance" /\ last.out = "ok" /\ last'.op = "rebalance" /\ last'.out = "ok"
-            /\ last'.x = last.x /\ IsZero(last.x.thr) /\ last.x.fractional
+            /\ last'.x = last.x /\ IsZero(last.x.thr) /\ last.x.fractional /\ last.x.absolute
             /\ IsZero(Fixed) /\ IsZero(Prop) /\ IsZero(Rate) /\ IsZero(Markup)
             /\ \A c \in C : st.bid[c] = st.ask[c])
           => last'.trades = <<>> ]_vars
 
 \* C12  trade filtering, stated declaratively on the pre-state (positions and quotes of st, NLV = last'.pre)
-Imb(s, r, nlv, c) == Sub(TargetLots(s, r, nlv, c), s.pos[c])
+Imb(s, r, nlv, c) == IF r.absolute THEN Sub(TargetLots(s, r, nlv, c), s.pos[c]) ELSE TargetLots(s, r, nlv, c)
 ImbWeight(s, nlv, c, imb) == Div(Mul(Mul(RM(Mult[c]), imb), AcqPrice(s, c, Sign(imb))), nlv)
 
 TradeIff ==
@@ -294,7 +295,7 @@ TradeIff ==
           LET r == last'.x  nlv == last'.pre
           IN  \A c \in C :
                 LET imb  == Imb(st, r, nlv, c)
-                    held == ~IsZero(st.pos[c]) /\ ~Targeted(r, c)
+                    held == r.absolute /\ ~IsZero(st.pos[c]) /\ ~Targeted(r, c)
                     q    == IF r.fractional THEN imb ELSE RM(TruncI(imb))
                     must == /\ ~IsZero(imb)
                             /\ (held \/ Ge(RAbs(ImbWeight(st, nlv, c, imb)), r.thr))
